@@ -210,6 +210,46 @@ def _install(it, box):
     it.hooks[(R, "_first_significant_for_both")] = first_sig_both
 
 
+def _exceeds(c, v):
+    """(index i, does |a_i - b_i| exceed the tolerance) as established by deciding the atom c with value v; None for other atoms."""
+    if getattr(c, "op", None) == "not" and c.args:
+        return _exceeds(c.args[0], not v)
+    if getattr(c, "op", None) not in (">", ">=", "<", "<=") or len(c.args) != 2:
+        return None
+    lt, rt = repr(c.args[0]), repr(c.args[1])
+    if "tol" in rt and "tol" not in lt:
+        diff, op = lt, c.op
+    elif "tol" in lt and "tol" not in rt:
+        diff, op = rt, {">": "<", ">=": "<=", "<": ">", "<=": ">="}[c.op]
+    else:
+        return None
+    idx = [i for i in range(4) if f"a{i}" in diff and f"b{i}" in diff]
+    if len(idx) != 1:
+        return None
+    exceed_if_true = op in (">", ">=")
+    return idx[0], (exceed_if_true if v else not exceed_if_true)
+
+
+def _cond_truth(c, exceed):
+    """Truth of a formula over the comparisons |a_i - b_i| <> tol when exceed[i] says which differences exceed the tolerance."""
+    if isinstance(c, bool):
+        return c
+    op = getattr(c, "op", None)
+    if op == "not":
+        t = _cond_truth(c.args[0], exceed)
+        return None if t is None else not t
+    if op in ("and", "or"):
+        ts = [_cond_truth(x, exceed) for x in c.args]
+        if any(t is None for t in ts):
+            return None
+        return all(ts) if op == "and" else any(ts)
+    e = _exceeds(c, True)
+    if e is None:
+        return None
+    i, exceed_if_true = e
+    return exceed[i] == exceed_if_true
+
+
 def check_verification(repo: Repo, rep: Report, rule: str):
     """_try_affine answers exactly `image of s1 under the candidate` almost_equals `s2` under the caller's tolerance;
     _apply_affine sends every command of a copy of the shape through _affine_callback with the candidate;
@@ -299,14 +339,32 @@ def check_verification(repo: Repo, rep: Report, rule: str):
                     bad = f"{title}: answers {o.value}; {want} expected whatever the numbers are"
                 continue
             # same structure: True iff no difference exceeds the tolerance; all four differences must have been looked at for True
-            exceeded = [v for c, v in o.decisions if "> tol" in repr(c) or "tol <" in repr(c)]
-            looked = {i for i in range(4) for c, _ in o.decisions if f"a{i}" in repr(c) and f"b{i}" in repr(c)}
+            if isinstance(o.value, Cond):
+                # the answer is a formula over the four comparisons (any()/all() over symbolic values): it must be their conjunction
+                import itertools as _it
+                wrong = None
+                for ex in _it.product((False, True), repeat=4):
+                    t = _cond_truth(o.value, ex)
+                    if t is None:
+                        raise AnalysisError(f"{F}: the answer {o.value!r} is not a formula over the four tolerance comparisons")
+                    if t != (not any(ex)):
+                        wrong = ex
+                if wrong is not None:
+                    bad = f"{title}: answers {o.value!r}, which is not 'every difference within the tolerance' (differs when the differences exceeding it are {[i for i, e in enumerate(wrong) if e]})"
+                continue
+            # the decisions taken on this path constrain which differences exceed the tolerance: the answer must be True exactly when they
+            # force every difference to be within it, False exactly when they force one to exceed it
+            import itertools as _it
+            consistent = [ex for ex in _it.product((False, True), repeat=4)
+                          if all(_cond_truth(c, ex) in (None, v) for c, v in o.decisions)]
+            if not consistent:
+                continue  # contradictory path (cannot happen at run time)
             if o.value is True or o.value == True:  # noqa: E712
-                if any(exceeded) or len(looked) != 4:
-                    bad = f"{title}: answers True although {'a difference exceeds the tolerance' if any(exceeded) else f'only the differences {sorted(looked)} of 4 were compared'} ({o.cond_text()[:120]})"
+                if any(any(ex) for ex in consistent):
+                    bad = f"{title}: answers True on a path where a difference may exceed the tolerance ({o.cond_text()[:120]})"
             else:
-                if not any(exceeded):
-                    bad = f"{title}: answers False although no difference exceeds the tolerance ({o.cond_text()[:120]})"
+                if any(not any(ex) for ex in consistent):
+                    bad = f"{title}: answers False on a path where no difference needs to exceed the tolerance ({o.cond_text()[:120]})"
     if bad:
         rep.fail(rule, F, "letters, argument counts, path lengths and every argument within the tolerance", bad, st, st.functions.get("SVGShape.almost_equals"))
     else:
